@@ -373,6 +373,20 @@ def check_aslist(case):
             single_list = isinstance(v, list) and len(v) == 1 and isinstance(v[0], list)
             out.viol('not-idempotent', '%s(%s) = %r but %s of that = %r' % (fname, n, once, fname, twice), f=fname,
                      shape='list whose single element is a list' if single_list else 'other')
+        # ---- the list a normaliser hands out for a non-list value is the caller's to edit: the next call on an equal value gives the clean result again
+        src_ = aval(n)
+        if fname == 'as_list' and isinstance(once, list) and not isinstance(src_, list):
+            out.sub()
+            try:
+                first_ = f(aval(n))
+                keep_ = list(first_)
+                first_.append('edited by the caller')
+                again_ = f(aval(n))
+                out.call(2)
+                if again_ != keep_:
+                    out.viol('normaliser-shared-state', 'as_list(%s) gave %r; after the caller appended to that list, as_list(%s) gives %r' % (n, keep_, n, again_), f=fname)
+            except Exception as e:
+                out.viol('normaliser-raised', '%s(%s) twice raised %s: %s' % (fname, n, type(e).__name__, e), f=fname)
         out.cls('%s:%s' % (fname, 'wrapped' if (isinstance(aval(n), (list, tuple, range))) else 'scalar'))
         out.nontrivial(fname)
     return out
